@@ -9,6 +9,7 @@ import sys, os
 sys.path.insert(0, os.path.join(os.getcwd(), "rules"))
 import facts
 facts.ensure_driver()
-facts.load("A")
-print("facts for configuration A extracted")
+for cfg in ("A", "B"):
+    facts.load(cfg)
+    print("facts for configuration %s extracted" % cfg)
 PY
